@@ -61,6 +61,7 @@ class World:
         self.S = os.path.join(root, 'S')
         os.makedirs(self.T); os.makedirs(self.S)
         self.fileMode = 0o640 if 'mode' in scenario else None
+        self.nofail = 'nofail' in scenario
         self.valid_sigs = {}
         self.seen = {}              # path -> (ino, bytes)
         self.problems = []
@@ -69,7 +70,7 @@ class World:
         self.execution = None
         e2.tempfile._name_sequence = e2.NameSeq()
         for tag in scenario:
-            if tag in ('mode',): continue
+            if tag in ('mode', 'nofail'): continue
             d = os.path.join(root, 'ws-' + tag)
             os.makedirs(d)
             if tag in ('A', 'B', 'C'):
@@ -95,6 +96,7 @@ class World:
     def archive(self, path):
         spec = {'backend': 'file', 'path': path}
         if self.fileMode is not None: spec['fileMode'] = self.fileMode
+        if self.nofail: spec['flags'] = ['download', 'upload', 'nofail']
         return self.ba.LocalArchive(spec)
 
     def uploader(self, d):
@@ -316,8 +318,8 @@ def size_windows(quick):
     return wins
 
 
-SCENARIOS_Q = [('A', 'B'), ('A', 'B', 'mode'), ('A', 'D'), ('A', 'M'), ('A', 'B', 'D'), ('A', 'M', 'D'), ('U', 'V'), ('U', 'V', 'R'), ('A', 'B', 'M')]
-SCENARIOS_T = SCENARIOS_Q + [('A', 'B', 'C'), ('A', 'B', 'M', 'D'), ('M', 'D'), ('A', 'M', 'mode')]
+SCENARIOS_Q = [('A', 'B'), ('A', 'B', 'mode'), ('A', 'B', 'nofail'), ('A', 'M', 'nofail'), ('U', 'V', 'nofail'), ('M', 'D', 'nofail'), ('M', 'D'), ('A', 'D'), ('A', 'M'), ('A', 'B', 'D'), ('A', 'M', 'D'), ('U', 'V'), ('U', 'V', 'R'), ('A', 'B', 'M')]
+SCENARIOS_T = SCENARIOS_Q + [('A', 'B', 'C'), ('A', 'B', 'M', 'D'), ('A', 'M', 'mode')]
 
 
 def run(ctx):
@@ -336,19 +338,19 @@ def run(ctx):
     scen = SCENARIOS_Q if quick else SCENARIOS_T
     # phase 1: schedules
     for s in scen:
-        n = len([t for t in s if t != 'mode'])
+        n = len([t for t in s if t not in ('mode', 'nofail')])
         bound = pb2 if (n <= 2 or not quick) else 1
         if not quick and n <= 2: bound = 99      # 2 actors: all interleavings
         jobs.append((s, bound, None, 200000))
     # discover fault sites from the default schedule of each scenario
     pre = runner.pmap(run_scenario, [(s, 0, None, 1) for s in scen])
     for (s, _, _, _), st in pre:
-        nact = len([t for t in s if t != 'mode'])
+        nact = len([t for t in s if t not in ('mode', 'nofail')])
         for ai in range(nact):
             for k in range(1, st['maxpoints'].get(ai, 0) + 1):
                 for kind in ('kill', 'eio'):
                     jobs.append((s, 0 if quick else 1, (ai, k, kind), 20000))
-        if s in (('A', 'B'), ('A', 'M'), ('U', 'V')):
+        if s in (('A', 'B'), ('A', 'M'), ('U', 'V'), ('A', 'B', 'nofail'), ('A', 'M', 'nofail'), ('U', 'V', 'nofail'), ('M', 'D', 'nofail'), ('M', 'D')):
             # ENOSPC at every buffered write of the first and second actor (writes are not
             # scheduling points; one run per write count, default schedule)
             pr = runner.pmap(run_scenario, [(s, 0, (ai, 10 ** 9, 'eio-write'), 1) for ai in range(2)], jobs=1)
